@@ -81,7 +81,7 @@ func VerifRepr(v Value) string {
 	case unicodeString:
 		return "utf16"
 	case *importedString:
-		if !v.scanned {
+		if !v.isScanned() {
 			return "imported:unscanned"
 		}
 		if v.u != nil {
